@@ -1042,6 +1042,12 @@ func random(c Cfg, n, maxlen int, seed int64, out, rankOut string) {
 		for j := range v {
 			v[j] = float32(rng.Intn(7)-3) + float32(rng.Intn(4))*0.25
 		}
+		if c.Index.Derived && i%7 == 3 {
+			// outliers: points far from the rest are the first to lose their incoming links when a budget is too small
+			for j := range v {
+				v[j] *= 10
+			}
+		}
 		if c.Index.Metric == "cosine" {
 			v[0] += 0.125 // avoid the zero vector
 			if i >= 2 && i%3 == 2 {
@@ -1081,11 +1087,14 @@ func random(c Cfg, n, maxlen int, seed int64, out, rankOut string) {
 		enc.Encode(d.resetEvent(hid))
 		ln := 1 + rng.Intn(maxlen)
 		// the first third of the histories is insert-only (C07 clause 1 at larger M)
-		insertOnly := hid%3 == 0
+		insertOnly := hid%3 == 0 || (c.Index.Derived && hid%3 == 1)
 		for i := 1; i <= ln; i++ {
 			var o hx.Op
 			x := rng.Intn(100)
 			it := item()
+			if insertOnly && c.Index.Derived && i <= c.NIds {
+				it.Id = i // distinct ids: the collection grows to the length of the history
+			}
 			switch {
 			case insertOnly || x < 40:
 				o = hx.Op{Op: "insert", Id: it.Id, Pt: it.Pt, Lvl: it.Lvl, Meta: it.Meta}
